@@ -582,7 +582,13 @@ def run_chunk(chunk, ctx):
             cur["at"] = nonlocal_at
             oa = P.run_text(prog.name, SymStr(ia))
             ob = P.run_text(prog.name, SymStr(ib_))
-            res = check_c19(mode, conc(outcome_key(oa)), conc(outcome_key(ob)), nonlocal_at, by, nbase)
+            alone = None
+            if mode == "append":
+                # the appended function as a file of its own (42 header + function): what the tool says about it THERE is a
+                # matter of C01 (is the function accepted?), not of locality
+                alone = conc(outcome_key(P.run_text(prog.name, SymStr(alone_items(ia, ib_)))))
+            res = check_c19(mode, conc(outcome_key(oa)), conc(outcome_key(ob)), nonlocal_at, by, nbase, alone=alone,
+                            na=sum(1 for x in ia if x == "\n"))
             if res:
                 m = ex.model()
                 col.violation(res[0], res[1], dict(prop="C19", mode=mode, name=prog.name, a=SymStr(ia).concretize(m),
@@ -606,7 +612,18 @@ def run_chunk(chunk, ctx):
     return res
 
 
-def check_c19(mode, ka, kb, at, by, nbase):
+def alone_items(ia, ib):
+    """42 header + empty line of the base file, then the appended function (the variant minus the base and the separating line)"""
+    n, k = 0, 0
+    for k, x in enumerate(ia):
+        if x == "\n":
+            n += 1
+            if n == 12:
+                break
+    return list(ia[:k + 1]) + list(ib[len(ia) + 1:])
+
+
+def check_c19(mode, ka, kb, at, by, nbase, alone=None, na=0):
     """ka/kb: outcome keys of the base file and of the variant.  Returns (fingerprint, what) or None."""
     if ka[0] != "ok" or kb[0] != "ok":
         if ka[0] == kb[0] and ka[1] == kb[1]:
@@ -625,7 +642,11 @@ def check_c19(mode, ka, kb, at, by, nbase):
         exp = shifted(ea, at, by)
     else:
         exp = list(ea)
-        extra = [e for e in eb if e not in exp]
+        own = set()
+        if alone is not None and alone[0] == "ok":
+            # diagnostics the appended function gets when it is a file of its own, moved to where it stands in the variant
+            own = {(e[0], e[1], e[2] + na - 11 if e[2] is not None else None, e[3]) for e in map(tuple, alone[2]) if e[2] is not None and e[2] >= 13}
+        extra = [e for e in eb if e not in exp and e not in own]
         missing = [e for e in exp if e not in eb]
         if extra or missing:
             return (f"C19:append:{'+'.join(sorted({e[0] for e in missing})) or '-'}|{'+'.join(sorted({e[0] for e in extra})) or '-'}",
@@ -650,5 +671,9 @@ def replay(case):
             feat = "alt-spellings-allowed" if case["name"] == "a11.c" else spelling_feature(case["a"], case["b"])
             viol.append([diff_fp(prop, ka, kb) + ((":" + feat) if prop == "C17" else ""), "diagnostics differ"])
         return dict(digest=dict(same=(ka == kb), key=kb), violations=viol)
-    res = check_c19(case["mode"], ka, kb, case["at"], case["by"], case["nbase"])
+    alone, na = None, 0
+    if case["mode"] == "append":
+        na = case["a"].count("\n")
+        alone = outcome_key(P.run_text(case["name"], "".join(alone_items(list(case["a"]), list(case["b"])))))
+    res = check_c19(case["mode"], ka, kb, case["at"], case["by"], case["nbase"], alone=alone, na=na)
     return dict(digest=dict(ok=not res), violations=[list(res)] if res else [])
